@@ -18,7 +18,53 @@ import (
 	"github.com/gethiox/HIDI/verifsim/simrt"
 )
 
-func init() { register("W4C19", runW4C19) }
+func init() {
+	register("W4C19", runW4C19)
+	shrinkers["W4C19"] = shrinkW4C
+}
+
+func shrinkW4C(raw json.RawMessage) []json.RawMessage {
+	var o w4cOps
+	if json.Unmarshal(raw, &o) != nil {
+		return nil
+	}
+	var out []json.RawMessage
+	clone := func() w4cOps {
+		c := o
+		c.Ops = append([]w4cOp(nil), o.Ops...)
+		return c
+	}
+	for i := range o.Ops {
+		if len(o.Ops) > 1 {
+			c := clone()
+			c.Ops = append(c.Ops[:i], c.Ops[i+1:]...)
+			out = append(out, mustJSON(c))
+		}
+	}
+	for i := range o.Ops {
+		if o.Ops[i].Chunks > 1 {
+			c := clone()
+			c.Ops[i].Chunks = 1
+			out = append(out, mustJSON(c))
+		}
+		if o.Ops[i].GapUs > 0 {
+			c := clone()
+			c.Ops[i].GapUs = 0
+			out = append(out, mustJSON(c))
+		}
+	}
+	if o.Reload {
+		c := clone()
+		c.Reload = false
+		out = append(out, mustJSON(c))
+	}
+	if o.ConsumerUs > 0 {
+		c := clone()
+		c.ConsumerUs = 0
+		out = append(out, mustJSON(c))
+	}
+	return out
+}
 
 // W4C19: the real DetectDeviceConfigChanges over the simulated fsnotify/inotify and the simulated file
 // system; a user task edits files, a consumer task (standing in for Manager.Run) receives the
